@@ -292,6 +292,9 @@ func (w *World) build(t Case, over *pdkg.ProposalTerms, now time.Time) (*pdkg.Go
 			return nil, false
 		}
 		terms.Joining = append(terms.Joining, Part(atk))
+		if th := uint32(key.MinimumT(len(terms.Joining) + len(terms.Remaining))); terms.Threshold < th {
+			terms.Threshold = th // one participant more: keep the proposal above the security threshold
+		}
 	}
 	if t.Signer == "Xsub" {
 		// attacker key under the claimed sender's address, substituted wherever that sender is listed
